@@ -26,6 +26,11 @@
 //      no GMP), and the number of accepted values must be q; larger p: boundary values, 64 members, 64 non-members.
 //      PedersenCommitmentScheme::TestMembership is held to the same predicate (since /repo 4a28817 it tests the order too).
 //
+//  Not judged (executed only): negative p/q/k (opt-in --judge-negative treats them as ill-formed; on the pinned tree every
+//  CheckGroup that derives k = (p-1)/q then reports accepts-ill-formed/negative for q := -q, see findings/c06_checkgroup_negative_q.cc)
+//  and members a class does not validate by design (GroupQR::k, GrothVSSHE's own p,g,h and public com, EDCF's own p,q,g,h).
+//  Generation runs under a coin budget (see generate()): tmcg_mpz_lprime can spin forever on an unlucky toy-size q.
+//
 // Regimes: tiny (F,G) = (16,8) [QR: 16, E=8] and (20,10); small (256,160); default (2048,256) / QR 512.
 // Tiers: quick = tiny, 4 sets of (16,8) + 1 of (20,10);  thorough = tiny 16+4 sets, small 8 sets, default 1 set.
 #include "drv.hh"
@@ -384,7 +389,8 @@ static void judge(const Subject &S, const std::string &ename, bool must_ill, con
 	bool neg = false;
 	for (size_t i = 0; i < f.size(); i++) if (kind_of(f[i]) == "negative") neg = true;
 	bool got = guarded_check(S, ename);
-	if (unspec || neg)
+	bool judge_neg = R->args.has("judge-negative");   // opt-in: a negative p, q or k counts as ill-formed (findings/c06_checkgroup_negative_q.cc)
+	if ((unspec && !(neg && judge_neg)) || (neg && !judge_neg))
 	{
 		R->ok(false);
 		R->counters[got ? "unspecified_accepted" : "unspecified_refused"]++;
